@@ -182,6 +182,16 @@ def solve_scipy(
     # Determine if gradient should be passed (not for derivative-free methods)
     use_gradient = method not in DERIVATIVE_FREE_METHODS
 
+    # The "problem appears linear" note is derived from a SciPy warning. Under
+    # Python's default once-per-location rule that warning is delivered only the
+    # first time in a process, so the note (and with it Solution.message) depended
+    # on which solves had run before: always deliver it while this solve runs.
+    warning_filters = warnings.catch_warnings()
+    warning_filters.__enter__()
+    warnings.filterwarnings(
+        "always", message=r"delta_grad == 0\.0", category=UserWarning
+    )
+
     try:
         # Temporarily override warning handling during solve
         warnings.showwarning = warning_handler
@@ -207,6 +217,7 @@ def solve_scipy(
         )
     finally:
         warnings.showwarning = old_showwarning
+        warning_filters.__exit__(None, None, None)
 
     solve_time = time.perf_counter() - start_time
 
